@@ -60,9 +60,20 @@ def lru_stems_from_parsed_url(parsed_url, suffix_aware=True):
 
         else:
             domain, suffix = split_result
+
+            # NOTE: split_suffix works on the lower-cased hostname without
+            # its trailing dots and an empty domain also stands for a lone
+            # leading dot: those empty labels are kept, as when suffix_aware
+            # is False
+            hostname = parsed_url.hostname.lower()
+            stripped = hostname.rstrip(".")
+
+            for _ in range(len(hostname) - len(stripped)):
+                lru.append("h:")
+
             lru.append("h:" + suffix)
 
-            if domain:
+            if domain or len(suffix) < len(stripped):
                 for element in reversed(domain.split(".")):
                     lru.append("h:" + element)
 
